@@ -8,5 +8,5 @@ pub mod shared;
 
 #[path = "parser/c12.rs"]
 mod c12;
-#[path = "parser/c11.rs"]
-mod c11;
+// parser/c11.rs (duplicate detection) is kept for the record but not mounted: it does not reach a
+// verdict (DESIGN.md section 5, C11)
